@@ -806,6 +806,25 @@ fn hints_for(tier: Tier, hi: HI, ops: &[u64]) -> Vec<Vec<u64>> {
                         }
                         add(t, &mut out);
                     }
+                    // algebraically consistent lies: a wrong quotient q' together with the "remainder" that
+                    // makes q' * b + r' = a hold in the FIELD (r' = a - q' * b mod p), given as one oversized
+                    // low limb or split at 2^32 - accepted unless every limb of the hint is range-checked
+                    {
+                        let b = ((ops[0] as i128) << 32) + ops[1] as i128;
+                        let a = ((ops[2] as i128) << 32) + ops[3] as i128;
+                        let q = a / b;
+                        for dq in [1i128, -1, 2] {
+                            let q2 = q + dq;
+                            if q2 < 0 || q2 >= 1 << 64 {
+                                continue;
+                            }
+                            let r2 = (((a - q2 * b) % P as i128) + P as i128) % P as i128;
+                            let (q_lo, q_hi) = ((q2 as u64) & m, (q2 as u64) >> 32);
+                            let r2 = r2 as u64;
+                            add(vec![q_lo, q_hi, r2, 0], &mut out);
+                            add(vec![q_lo, q_hi, r2 & m, r2 >> 32], &mut out);
+                        }
+                    }
                     // all four limbs dishonest over a reduced alphabet
                     let per_limb: Vec<Vec<u64>> = h
                         .iter()
